@@ -105,6 +105,13 @@ pub fn gen_c02(rng: &mut Rng, n: usize, out: &mut Vec<String>) {
             _ => ops_parse::gen_valid_text(rng, 10, true),
         };
         out.push(format!("NEW {}", hex_str(&text)));
+        if i % 4 == 1 {
+            // the document layer: batched content changes (ranged and full-text, each relative to its
+            // predecessor) through to_text_changes + replace_range; a panic here kills the broker task
+            let mut tmp = vec![];
+            crate::ops_doc::gen_c08(rng, 2, &mut tmp);
+            out.extend(tmp.into_iter().filter(|l| l.starts_with("CHG ")));
+        }
         if i % 2 == 0 {
             let k = rng.range(1, 5);
             let edits = gen_edits(rng, &text, k);
